@@ -92,6 +92,18 @@ def cases(tier, seed):
         for target in ("in-file", "force-dot-license", "fallback-dot-license"):
             for sel in itertools.permutations(["H1", "X1", "H3", "BIN", "C3"], 2):
                 yield {"k": "tpl", "tpl": tpl, "target": target, "sel": list(sel)}
+            for sel in (["H1", "C3"], ["X1", "H3"], ["BIN", "H1"]):
+                for extra in (["--no-replace"], ["--merge-copyrights"], ["--skip-existing"], ["--no-replace", "--multi-line"]):
+                    yield {"k": "tpl", "tpl": tpl, "target": target, "sel": sel, "extra": extra}
+    from ..refmodel.styles import CAPABILITIES
+
+    for st, cap in CAPABILITIES.items():
+        for mode in ("single", "multi"):
+            if not cap[mode]:
+                for how in ("style-option", "file-type"):
+                    if how == "file-type" and not cap["ext"]:
+                        continue
+                    yield {"k": "capability", "style": st, "mode": mode, "how": how}
     for cell in usage_cells():
         for variant in range(len(NAME_VARIANTS) if cell["bad"] in ("h2.html", "h1.py", "NOTES") else 1):
             yield {"k": "usage", "variant": variant, **cell}
@@ -187,6 +199,13 @@ def ev_tpl(c) -> R:
     argv = ["--copyright", "Jane Doe", "--license", "MIT", "--year", "2020", "--template", c["tpl"]]
     if c["target"] != "in-file":
         argv.append("--" + c["target"])
+    argv += c.get("extra", [])
+    if "--multi-line" in argv:
+        names = [n for n in names if n.endswith((".c", ".html"))]
+        if not names:
+            r.outcome, r.nontrivial = "n/a", False
+            r.tags.append("tpl")
+            return r
     before = read_tree(root)
     res = annot.annotate(root, argv, [root / n for n in names])
     after = read_tree(root)
@@ -204,6 +223,39 @@ def ev_tpl(c) -> R:
         r.violation(f"tpl-tree-changed|tpl={c['tpl']}|{c['target']}", f"{label}: every file must fail, but the tree changed: {changed}")
     r.outcome = f"tpl-exit{res.exit_code}"
     r.tags.append("tpl")
+    return r
+
+
+def ev_capability(c) -> R:
+    """A line mode the style does not have (frozen table, refmodel/styles.py) is a usage error for the whole invocation: exit status 2,
+    nothing touched - also not the healthy file named next to it."""
+    from ..cli import run_cli
+    from ..refmodel.styles import CAPABILITIES
+
+    r = R()
+    cap = CAPABILITIES[c["style"]]
+    root = fresh_dir("c11")
+    bad = "data.unknownext" if c["how"] == "style-option" else "file" + cap["ext"]
+    recipe = {bad: "content\n", "healthy.py" if c["mode"] == "single" else "healthy.c": "code\n"}
+    materialise(root, recipe)
+    argv = ["--copyright", "Jane Doe", "--license", "MIT", "--year", "2020", "--" + c["mode"] + "-line"]
+    names = sorted(recipe)
+    if c["how"] == "style-option":
+        argv += ["--style", c["style"]]
+        names = [bad]
+    before = read_tree(root)
+    res = run_cli(["annotate", *argv, *names], cwd=str(root))
+    after = read_tree(root)
+    label = f"annotate {argv} {names} (style {c['style']} has no {c['mode']}-line comments)"
+    if res.exc:
+        r.violation(f"crash|capability|{c['style']}", f"{label}: {res.exc_repr}")
+    elif res.exit_code != 2:
+        r.violation(f"unsupported-line-mode-accepted|{c['style']}|{c['mode']}|{c['how']}", f"{label}: exit status {res.exit_code}; stdout {res.stdout[-200:]!r}")
+    if after != before:
+        changed = sorted(p for p in set(after) | set(before) if after.get(p) != before.get(p))
+        r.violation(f"unsupported-line-mode-touched-tree|{c['style']}|{c['mode']}", f"{label}: tree changed: {changed}")
+    r.outcome = f"capability-exit{res.exit_code}"
+    r.tags.append("capability")
     return r
 
 
@@ -257,7 +309,7 @@ def ev_usage(c) -> R:
     return r
 
 
-_EV = {"mix": ev_mix, "tpl": ev_tpl, "usage": ev_usage}
+_EV = {"mix": ev_mix, "tpl": ev_tpl, "usage": ev_usage, "capability": ev_capability}
 
 
 def evaluate(c) -> R:
